@@ -14,6 +14,7 @@ import (
 )
 
 type Clause struct {
+	Safe  bool // loop invariant that holds without the domain hypothesis
 	Label string
 	E     Expr
 	Src   string
@@ -52,6 +53,8 @@ type FuncContract struct {
 	Results  []string
 	Lets     []LetDef
 	Requires []Clause
+	Domain   []Clause // domain of the functional clauses: hypothesis of post/invariant/assert obligations only,
+	// never assumed for safety or termination obligations and never demanded from callers
 	Ensures  []Clause
 	Modifies []Expr
 	Splits   []SplitSpec
@@ -85,7 +88,7 @@ type ContractSet struct {
 	Lemmas []*Lemma
 }
 
-var clauseKeywords = map[string]bool{"cut": true, "label": true, "requires": true, "ensures": true, "let": true, "split": true, "modifies": true,
+var clauseKeywords = map[string]bool{"domain": true, "cut": true, "label": true, "requires": true, "ensures": true, "let": true, "split": true, "modifies": true,
 	"loop": true, "assert": true, "trusted": true, "pure": true, "dyntypes": true}
 
 func LoadContracts(files []string) (*ContractSet, error) {
@@ -281,7 +284,7 @@ func parseSplit(rest string) (SplitSpec, error) {
 
 func parseClause(fc *FuncContract, kw, rest, pos string) error {
 	switch kw {
-	case "requires", "ensures":
+	case "requires", "ensures", "domain":
 		label, body := parseLabel(rest)
 		e, err := ParseExpr(body)
 		if err != nil {
@@ -290,6 +293,8 @@ func parseClause(fc *FuncContract, kw, rest, pos string) error {
 		c := Clause{Label: label, E: e, Src: body, Pos: pos}
 		if kw == "requires" {
 			fc.Requires = append(fc.Requires, c)
+		} else if kw == "domain" {
+			fc.Domain = append(fc.Domain, c)
 		} else {
 			if c.Label == "" {
 				c.Label = fmt.Sprintf("e%d", len(fc.Ensures)+1)
@@ -408,12 +413,12 @@ func parseClause(fc *FuncContract, kw, rest, pos string) error {
 		}
 		body := strings.TrimSpace(strings.TrimPrefix(strings.TrimSpace(strings.TrimPrefix(rest, f[0])), f[1]))
 		switch f[1] {
-		case "invariant":
+		case "invariant", "invariant[safe]":
 			e, err := ParseExpr(body)
 			if err != nil {
 				return err
 			}
-			lc.Inv = append(lc.Inv, Clause{Label: fmt.Sprintf("%d", len(lc.Inv)+1), E: e, Src: body, Pos: pos})
+			lc.Inv = append(lc.Inv, Clause{Label: fmt.Sprintf("%d", len(lc.Inv)+1), E: e, Src: body, Pos: pos, Safe: f[1] == "invariant[safe]"})
 		case "decreases":
 			e, err := ParseExpr(body)
 			if err != nil {
